@@ -61,6 +61,33 @@ pub struct Verdict {
     pub removeparam_hits: usize,
     pub csp_hits: usize,
     pub csp_exception_hits: usize,
+    /// some active blocking rule / some active exception rule matches (before precedence)
+    pub raw_block: bool,
+    pub raw_exception: bool,
+}
+
+impl Verdict {
+    /// (matched, important, exception present) for the multi-engine entry point
+    /// `check_network_request_subset(request, previously_matched_rule, force_check_exceptions)`:
+    /// important rules are always consulted; ordinary blocking rules only if no earlier engine
+    /// matched; exceptions whenever a non-important rule of this engine matched, and otherwise
+    /// only if an earlier engine matched or the caller forces them; the request counts as
+    /// matched if no exception applies and this or an earlier engine matched.
+    pub fn with_flags(&self, previously_matched: bool, force_exceptions: bool, supported: bool) -> (bool, bool, bool) {
+        if !supported {
+            return (false, false, false);
+        }
+        let imp = self.important;
+        let filter_some = imp || (!previously_matched && self.raw_block);
+        let exception = if imp {
+            false
+        } else if filter_some {
+            self.raw_exception
+        } else {
+            (previously_matched || force_exceptions) && self.raw_exception
+        };
+        (!exception && (filter_some || previously_matched), imp, exception)
+    }
 }
 
 pub fn categorize(f: &NetworkFilter, tag: &Option<String>) -> Cat {
@@ -159,6 +186,8 @@ impl Scan {
             removeparam_hits: 0,
             csp_hits: 0,
             csp_exception_hits: 0,
+            raw_block: false,
+            raw_exception: false,
         };
         let (csp, csp_hits, csp_exc) = self.csp_detail(rq, tags);
         v.csp = csp;
@@ -199,6 +228,8 @@ impl Scan {
             }
         }
         v.matched = imp || (blk && !exc);
+        v.raw_block = blk;
+        v.raw_exception = exc;
         v.important = imp;
         v.exception = !imp && blk && exc;
         // redirect: highest priority non-exception redirect whose modifier text is not the
